@@ -38,6 +38,18 @@ Qed.
 Lemma cfg_move_cursor s p : cfg (move_cursor s p) = cfg s.
 Proof. unfold move_cursor, cursor_changed. brk. Qed.
 
+Lemma cfg_set_text s v : cfg (set_text s v) = cfg s.
+Proof.
+  unfold set_text. destruct (len v <? cur s); destruct (str_eqb v _); simp;
+    rewrite ?cfg_text_changed; simp; rewrite ?cfg_move_cursor; reflexivity.
+Qed.
+
+Lemma cfg_validate_sync s ok epos sc : cfg (validate_sync s ok epos sc) = cfg s.
+Proof.
+  unfold validate_sync. destruct (vst s =? 0); [|reflexivity].
+  destruct (vwt (cfg s) && negb ok); [|reflexivity]. destruct sc; simp; rewrite ?cfg_move_cursor; reflexivity.
+Qed.
+
 Lemma cfg_gtc s i s' e : go_to_completion s i = (s', e) -> cfg s' = cfg s.
 Proof.
   unfold go_to_completion. intros H.
@@ -146,6 +158,12 @@ Proof.
     destruct (doc_eqb _ d); inversion E; subst; [reflexivity|].
     unfold suggester_body. brk.
   - unfold install_menu in E. apply cfg_gtc in E. exact E.
+  - inversion E; subst. unfold delete_fwd. destruct (cur s <? len (text s)); [apply cfg_set_text|reflexivity].
+  - inversion E; subst. apply cfg_set_text.
+  - unfold swap_chars in E. destruct (2 <=? cur s); [|inversion E; reflexivity].
+    destruct (index (text s) (cur s - 2)); [|inversion E; reflexivity].
+    destruct (index (text s) (cur s - 1)); inversion E; subst; [apply cfg_set_text|reflexivity].
+  - inversion E; subst. apply cfg_validate_sync.
 Qed.
 
 Lemma cfg_run ls : forall s, cfg (run s ls) = cfg s.
